@@ -12,6 +12,8 @@ import os
 import time
 import traceback
 
+from mc import modstate
+
 _SPEC = None          # set before the pool forks
 
 
@@ -54,6 +56,8 @@ def impl_site(tb):
 
 
 def build(spec, history):
+    # every history starts from the same process-wide state (mc/modstate.py)
+    modstate.reset()
     w = spec.new_world()
     for ev in history:
         spec.apply(w, ev)
